@@ -1241,6 +1241,12 @@ impl Engine for C09 {
             st.bump("probe.fx_every_process_starts_from_a_hand_edited_cache");
             nontrivial = true;
         }
+        {
+            let secs: BTreeSet<&String> = sc.files.iter().flat_map(|f| f.rows.iter().map(|r| &r[C_SEC])).collect();
+            if secs.len() >= 2 {
+                st.bump("probe.input_with_ge2_securities");
+            }
+        }
         if sc.files.iter().any(|f| f.layout_seed != 0) {
             st.bump("probe.columns_permuted_and_header_names_respelled");
         }
@@ -1545,14 +1551,12 @@ impl Engine for C09 {
     }
     fn required_probes(&self, _tier: Tier) -> Vec<&'static str> {
         vec![
-            "probe.ge2_securities_rendered",
+            // (probes read off the tool's OUTPUT TEXT - >=2 securities rendered, ignored notes in >=2
+            // securities, tied yearly-max days, shared automatic SfL, gains in >=2 years, summary with
+            // >=2 affiliates/securities - are reported but not required: a change of wording or layout
+            // must not turn the check into a harness error)
+            "probe.input_with_ge2_securities",
             "probe.global_split_over_ge2_affiliates",
-            "probe.ignored_notes_in_ge2_securities",
-            "probe.yearly_max_tied_days",
-            "probe.auto_sfl_shared_by_ge2_affiliates",
-            "probe.gains_in_ge2_years",
-            "probe.summary_ge2_affiliates",
-            "probe.summary_ge2_securities",
             "probe.hash_seed_changed_probe_set_order",
             "probe.securities_differing_only_in_case",
             "probe.output_dir_used_by_an_earlier_longer_run",
